@@ -71,10 +71,13 @@ class Solver:
                 raise ValueError("Cannot connect a structure to itself")
             self.connections_list.append(pin1)
             self.connections_list.append(pin2)
-            pin1[0].add_conn(pin1[1], *pin2)
-            pin2[0].add_conn(pin2[1], *pin1)
         if len(set(self.connections_list)) != len(self.connections_list):
             raise ValueError("Same pin connected multiple time")
+        # all connections are valid: only now are the structures' own tables written,
+        # so that a rejected set of connections leaves the structures as they were
+        for pin1, pin2 in self.connections.items():
+            pin1[0].add_conn(pin1[1], *pin2)
+            pin2[0].add_conn(pin2[1], *pin1)
         self.free_pins = []
         for st in self.structures:
             for pin in st.pin_list:
